@@ -185,3 +185,40 @@ func atoi(s string) int {
 	}
 	return n
 }
+
+// C19_SeparateWriters: the program prints to the writer given at Parse time
+// whatever is passed to Execute; introspection text of the execution goes to
+// Execute's writer or the program's, never replacing the program's lines.
+func C19_SeparateWriters() {
+	src := c19Programs[verif.Choice("prog", 3)]
+	values := map[string]any{}
+	for _, text := range []string{"1001", "1002", "1003"} {
+		if containsStr(src, text) {
+			values[text] = verif.Int("k" + text)
+		}
+	}
+	run := func(opts ...bcl.Option) (string, error) {
+		w, log := &symio.Writer{}, &symio.Writer{}
+		p, err := bcl.Parse([]byte(src), "src", bcl.OptOutput(w), bcl.OptLogger(log))
+		if err != nil {
+			panic("rejected")
+		}
+		var phs, vals []any
+		for text, v := range values {
+			phs = append(phs, placeholderValue(text))
+			vals = append(vals, v)
+		}
+		patchConsts(p, phs, vals)
+		_, _, xerr := bcl.Execute(p, opts...)
+		prog, _, _ := c19Split(w.String())
+		return strings.Join(prog, "\n"), xerr
+	}
+	base, e0 := run()
+	other := &symio.Writer{}
+	with, e1 := run(bcl.OptOutput(other), bcl.OptTrace(verif.Bool("trace")), bcl.OptStats(verif.Bool("stats")))
+	verif.Assert(errText(e0) == errText(e1), "same error")
+	verif.Assert(base == with, "the program's lines stay on the writer given at Parse time")
+	op, _, _ := c19Split(other.String())
+	verif.Assert(len(op) == 0, "no program output on Execute's writer")
+	verif.Reach("compared")
+}
